@@ -26,10 +26,14 @@ long UF(acc_str)(long, long);
 long UF(acc_endl)(long);
 
 size_t ghost_ok;     /* arbitrary output position, never assigned */
+size_t ghost_ik;     /* arbitrary input position, never assigned  */
+size_t ev_n;         /* global event counter: every integer sent or received gets the next event number */
 typedef struct {
   long acc;          /* abstract content written so far                       */
   size_t nput;       /* number of integer tokens written                      */
   long okv;          /* value of integer token number ghost_ok                */
+  size_t okev;       /* event number at which integer token number ghost_ok was written */
+  size_t ikev;       /* event number at which input token number ghost_ik was read       */
   long *tok;         /* input tokens                                          */
   size_t ntok, pos;
   _Bool fail, eof_after_last;
@@ -38,9 +42,10 @@ typedef struct {
 
 _Bool nondet_bool(void);
 static inline void ios_t__ctor_0(ios_t *s)
-{ s->acc = 0; s->nput = 0; s->okv = 0; s->tok = 0; s->ntok = 0; s->pos = 0; s->fail = 0; s->eof_after_last = 1; }
+{ s->acc = 0; s->nput = 0; s->okv = 0; s->okev = 0; s->ikev = 0; s->tok = 0; s->ntok = 0; s->pos = 0; s->fail = 0; s->eof_after_last = 1; }
 static inline void ios_put_mpz(ios_t *s, mpz_srcptr x)
-{ s->acc = UF(acc_mpz)(s->acc, x->v); if (s->nput == ghost_ok) s->okv = x->v;
+{ s->acc = UF(acc_mpz)(s->acc, x->v); if (s->nput == ghost_ok) { s->okv = x->v; s->okev = ev_n; }
+  __CPROVER_assume(ev_n + 1 > ev_n); ev_n = ev_n + 1;
   __CPROVER_assume(s->nput + 1 > s->nput); s->nput = s->nput + 1; }
 static inline void ios_put_lit(ios_t *s, const char *txt, unsigned long id) { (void)txt; s->acc = UF(acc_lit)(s->acc, id); }
 static inline void ios_put_ulong(ios_t *s, unsigned long x) { s->acc = UF(acc_ulong)(s->acc, x); }
@@ -55,6 +60,8 @@ static inline void ios_get_mpz(ios_t *s, mpz_ptr x)
   if (s->fail || s->pos >= s->ntok || nondet_bool())
   { x->v = 0; s->fail = 1; __tmcg_thrown = TMCG_EXC_runtime_error; return; }
   __CPROVER_assert(s->pos < IOS_MAXTOK, "model limit: input token queue");
+  if (s->pos == ghost_ik) s->ikev = ev_n;
+  __CPROVER_assume(ev_n + 1 > ev_n); ev_n = ev_n + 1;
   x->v = s->tok[s->pos]; s->pos = s->pos + 1;
 }
 /* precondition text for a well-formed (allocated) input stream object */
